@@ -199,6 +199,7 @@ def json_safe(x):
 
 
 def run(rep, tier, seed):
+    gd.pollute()        # same-named custom callables have been used in this process before any spec is parsed
     os.makedirs(os.path.join(tlc.VERIF, "out"), exist_ok=True)
     a = tlc.model_check_sharded("MC_GrammarPath", "MC_GrammarPath.cfg")
     rep.add_tlc(a, "A:MC_GrammarPath")
